@@ -12,6 +12,7 @@ import (
 	"fmt"
 	"strings"
 	"sync"
+	"sync/atomic"
 	"time"
 )
 
@@ -182,7 +183,11 @@ func YO[F any](label string, obj any, f F) F {
 // Lock / Unlock replace (*sync.Mutex).Lock/Unlock (and the write side of RWMutex).
 func Lock(m sync.Locker, label string) {
 	if cur == nil || cur.current == nil {
-		realLock(m, label)
+		if TrackRealLocks.Load() {
+			realLock(m, label)
+		} else {
+			m.Lock()
+		}
 		return
 	}
 	s := cur
@@ -209,14 +214,19 @@ func Unlock(m sync.Locker) {
 			delete(s.holders, m)
 		}
 	}
-	realMu.Lock()
-	delete(realHeld, m)
-	realMu.Unlock()
+	if TrackRealLocks.Load() {
+		realMu.Lock()
+		delete(realHeld, m)
+		realMu.Unlock()
+	}
 	m.Unlock()
 }
 
 // ---- bookkeeping of instrumented locks taken for real (no controlled scheduler): which call site holds a lock,
 // which call sites are blocked in front of it. A watchdog of a real-time harness reads it with RealLockReport.
+
+// TrackRealLocks switches the bookkeeping on (off by default: it serialises every instrumented Lock on one mutex).
+var TrackRealLocks atomic.Bool
 
 var (
 	realMu   sync.Mutex
